@@ -24,7 +24,7 @@ def extra(world, report, Tr, tr_fn, Untranslatable):
     targets = [
         ('Qcow2DevR', '__read_at', 'g_read_at_checks', is_let_of('done'), ['offset', 'len', 'extra', 'single']),
         ('Qcow2DevW', '__write_at', 'g_write_at_checks', lambda s: s[0] in ('expr', 'semi') and s[1][0] == 'if' and s[1][1] == ('path', ['single']), ['offset', 'len', 'single']),
-        ('Qcow2DevD', 'discard', 'g_discard_checks', is_let_of('guest'), ['start', 'stop']),
+        ('Qcow2DevD', 'discard', 'g_discard_checks', lambda s: is_let_of('guest')(s) or is_let_of('released')(s), ['start', 'stop']),
     ]
     for owner, name, cname, cut, live in targets:
         try:
